@@ -438,7 +438,9 @@ def cons_sol(u):
     xt, yt = u.method(cp, "transform_sol", x0, y0)
     xtv = V(xt)
     u.ensure(QAll(n, lambda j: xtv.f(j) == V(x0).f(j)), "transform_sol.x[:n]==x0")
-    if k:
+    if k and "cons" not in up.ret0:
+        u.ensure(False, "starting_slacks_computed_from_c(x0)", desc="transform_sol did not evaluate the constraints although there are inequality rows")
+    elif k:
         c0 = up.ret0["cons"]
         clip = lambda t, lo, hi: ops.zmin(ops.zmax(t, lo), hi)
         u.ensure(ops.zand(*[xtv.f(n + t) == clip(c0.f(pos[t]), cl.f(pos[t]), cu.f(pos[t])) for t in range(k)]), "starting_slacks==clip(c(x0)[pos],cl[pos],cu[pos])")
